@@ -132,6 +132,8 @@ func sweepInputs(g simrt.Grammar, cfg simrt.InstCfg, sw *Sweep) []string {
 	return out
 }
 
+var thoroughTier bool
+
 func genSweep(r *simrt.SplitMix64) (*GrammarInfo, *Sweep) {
 	if len(repeatableNames) == 0 {
 		return nil, nil
@@ -139,6 +141,9 @@ func genSweep(r *simrt.SplitMix64) (*GrammarInfo, *Sweep) {
 	g := byName[repeatableNames[r.Intn(len(repeatableNames))]]
 	units := repeatable[g.Name]
 	sw := &Sweep{Unit: units[r.Intn(len(units))], Boundary: []int{256, 1024, 4096, 4096, 4096, 8192, 8192, 8192, 1024, 4096, 8192, 32768}[r.Intn(12)], Width: 32}
+	if sw.Boundary > 8192 && !thoroughTier {
+		sw.Boundary = 4096
+	}
 	if r.Chance(1, 2) {
 		sw.Unit += units[r.Intn(len(units))]
 	}
@@ -205,8 +210,9 @@ type Job struct {
 	RefSigs  bool   `json:"ref_sigs"` // return the per-case digests of the reference observations
 	// RefOnly: compute only the reference observations (unwoven validation
 	// build, which has no step budget); cases listed in Skip are not run at all
-	RefOnly bool  `json:"ref_only"`
-	Skip    []int `json:"skip,omitempty"`
+	Thorough bool  `json:"thorough"` // thorough tier: the costly variants (32 768-token boundary sweeps) are included
+	RefOnly  bool  `json:"ref_only"`
+	Skip     []int `json:"skip,omitempty"`
 }
 
 type Outcome struct {
@@ -1394,6 +1400,7 @@ func TestSim(t *testing.T) {
 		os.Exit(3)
 	}
 	mustRead(t, job.Workload, &workload)
+	thoroughTier = job.Thorough
 	for i := range workload {
 		byName[workload[i].Name] = &workload[i]
 	}
